@@ -141,6 +141,14 @@ def run_async(graph, inputs, runner=None, **kw):
             return outcome(exc=e)
 
 
+CURRENT = {"case": None}
+
+
+def set_case(harness, spec, runner):
+    """Tell the armed monitors which generated program is running (becomes the replay descriptor of a contract failure)."""
+    CURRENT["case"] = {"harness": harness, "spec": spec, "runner": runner}
+
+
 class Result:
     """Accumulates what a bounded run covered; serialised for the check's evidence."""
 
